@@ -21,17 +21,8 @@ from common import tok
 # TODO(main): signatures of misbehaviour of the UNCHANGED library exposed by the new coverage; they are routed
 # through report.known_match() (printed as KNOWN-FINDING once registered in known_findings.json) and, until
 # then, kept from failing the check by this list.
-PENDING_FINDINGS = [    # (the touch-on-a-lower-layer-file finding is registered in known_findings.json)
-    # MountFS / MultiFS inherit FS.islink (getinfo(); return False): a symlink inside an OSFS / TempFS member is
-    # reported as "not a link" although the member itself answers True
-    "a method that is neither data nor metadata is not answered by the routed filesystem (MountFS.islink)",
-    "a method that is neither data nor metadata is not answered by the routed filesystem (MultiFS.islink)",
-    # fs.move.move_file(osfs, p, multifs, q) with q present in an OS-backed member that is NOT the write filesystem:
-    # the rename fast path (MultiFS.getsyspath(q) = the first holder's path) overwrites q inside that member; the
-    # write filesystem gets nothing; without any write filesystem the move succeeds instead of ResourceReadOnly
-    "moving a file through a composite with OS-backed members does not move it between the routed filesystems "
-    "(move_file(OSFS -> MultiFS, a name that exists in the members))",
-]
+PENDING_FINDINGS = []    # islink through MountFS/MultiFS: repaired in /repo 07337ab; move_file into a MultiFS whose
+#                          non-write OS-backed member holds the name: registered in known_findings.json
 
 LOGGED = ("getinfo", "listdir", "makedir", "openbin", "remove", "removedir", "setinfo", "scandir",
           "open", "makedirs", "move", "copy", "movedir", "copydir", "removetree", "exists", "isdir",
@@ -1788,7 +1779,13 @@ def run(report):
                     "spelling class x every call-path spelling class with the routed member's own answer as oracle; "
                     "MultiFS: 1-4 members, priorities from {0,0,1,-1}, any write layer or none x random histories; "
                     "plus every public FS method x where the path / its ancestors live x 2-3 members x write member "
-                    "or none; non-trivial = distinct (configuration, call kind, routed members)",
+                    "or none; configuration interleaved with use: mount() after 0/1/several calls on paths that already "
+                    "have content in the default tree, add_fs() after 0/1/many calls with every priority relation x "
+                    "write flag (oracle: the rule on the CURRENT configuration = a freshly built composite); OSFS / "
+                    "TempFS / SubFS(OSFS) members mixed with MemoryFS ones: getsyspath, getospath, hassyspath, geturl, "
+                    "hasurl, desc, validatepath, islink, getinfo(link/access) against the routed member's own answer, "
+                    "file moves (fs.move.move_file, MountFS.move) against the expected effect on every store; "
+                    "non-trivial = distinct (configuration, call kind, routed members)",
                samples=[dict(mounts=mcases[0][0], history=[list(map(str, o)) for o in mcases[0][1]][:4])],
                disagreements_checked=len(bad), multifs_steps=mtotal,
                mount_spelling_sweep=spell_cov, multifs_member_state_sweep=state_cov,
@@ -1819,7 +1816,20 @@ def run(report):
         "is not a routing matter); without a write filesystem a call that would create or change something must "
         "raise ResourceReadOnly; members other than the write filesystem may only lose paths the call removes from "
         "the union. Fixtures where a file and a directory collide across members are run with the member-change "
-        "rules only (no plain filesystem can represent that union)"])
+        "rules only (no plain filesystem can represent that union)",
+        "configuration interleaved with use: the member order after each add_fs is the extracted `route order` of "
+        "the priorities added so far, the mounts in force at each call are those accepted so far (`route mountable` / "
+        "`route mount`); expected answers are the members' own (first holder / routed twin); a freshly built "
+        "MultiFS over the same member objects is a second reference. Calls made before a mount never create a "
+        "FILE at or above a later mount point (mount() then fails after registering the mount - modelled in "
+        "Composite.v mount_mount, not a routing matter). add_fs with a name that is already in use is not driven",
+        "OS-backed members: the oracle of a non-data method is the routed member's own answer for the relative "
+        "path (MountFS: member and path from `route mount`; MultiFS: first holder in `route order`, no holder = "
+        "ResourceNotFound / False); validatepath must return the normalised absolute path when the member accepts "
+        "the path; desc must name the routed filesystem (or be its own description) and no other member; getmeta "
+        "is the composite's own and is not compared; a moved file must leave the routed source store and arrive in "
+        "the routed destination store (MultiFS: the write filesystem, ResourceReadOnly without one) with every other "
+        "file of every store unchanged"])
 
 
 def replay(report, path):
